@@ -33,6 +33,17 @@ Definition leaf_raw (t : table) (n : Z) : Z :=
 Definition leaf_flow (t : table) : list (Z * Z) :=
   map (fun r => (rid r, with_fork_rule t (leaf_raw t) r)) t.
 
+(* The DEVIATION of navis' flow_centrality that is recorded as known findings, as an executable variant: the product is evaluated at
+   branch points only and copied along segments from their distal end, so every node with at most one tip below it (a terminal
+   segment) reports 0; `glob` = the tips of all fragments are used as the total instead of the fragment's own.  The check keys the
+   known findings by exact agreement with this variant - any other difference from leaf_flow is a violation. *)
+Definition leaf_raw_impl (glob : bool) (t : table) (n : Z) : Z :=
+  let l := leaves_of t in
+  if count_distal t n l <=? 1 then 0
+  else ((if glob then Z.of_nat (length l) else count_frag t n l) - count_distal t n l) * count_distal t n l.
+Definition leaf_flow_impl (glob : bool) (t : table) : list (Z * Z) :=
+  map (fun r => (rid r, with_fork_rule t (leaf_raw_impl glob t) r)) t.
+
 (* bending flow at a node with >= 2 children: post->pre paths that turn at it from one child branch into another *)
 Definition bending_at (t : table) (pre post : list Z) (n : Z) : Z :=
   let cs := children t n in
